@@ -4,21 +4,27 @@ import numpy as np
 from vlib import caseio, gen
 
 ID = "C03"
-COQ_TARGETS = ["C03_Extract.vo", "C03_Proofs.vo", "C03_Circular.vo"]
+COQ_TARGETS = ["C03_Extract.vo", "C03_Proofs.vo", "C03_Circular.vo", "C03_Real.vo", "C03_Transport.vo"]
+COQ_PREFIXES = ["C03", "C18", "C19", "C02"]
 EXTRACTED = "C03_model"
 DRIVER = "drv_C03.ml"
 HARNESS = "h_C03.cpp"
 VARIANTS = {"quick": ["O1", "assert"], "thorough": ["O1", "assert", "asan"]}
-AXIOMS_ALLOWED = []
-REQUIRED_THEOREMS = ["C03_weights_sum", "C03_sigma_moments_linear", "C03_affine_exact", "C03_affine_exact_augmented",
-                     "C03_affine_exact_additive", "C03_failure_propagates"]
+# the linear-algebra theorems are closed under the global context; the three World-B theorems
+# (C03_circular_row, C03_quaternion_block, C03_scalar_helpers_are_C19_C18) are over Coq's reals
+AXIOMS_ALLOWED = ["ClassicalDedekindReals.sig_forall_dec", "ClassicalDedekindReals.sig_not_dec",
+                  "FunctionalExtensionality.functional_extensionality_dep", "Classical_Prop.classic"]
+REQUIRED_THEOREMS = ["C03_weights_sum", "C03_weights_shape", "C03_sigma_moments_linear", "C03_affine_exact", "C03_affine_exact_models",
+                     "C03_affine_exact_augmented", "C03_affine_exact_additive", "C03_first_sigma_point_partial",
+                     "C03_failure_propagates", "C03_success_propagates", "C03_circular_row", "C03_quaternion_block",
+                     "C03_scalar_helpers_are_C19_C18", "C03_transport_weighted_sums", "C03_transport_affine_map"]
 RULE = ("cases drawn from one seeded stream: kinds weights (n 1..12) and ut with layouts linear / Euler-circular (no-wrap and wrap) / "
         "quaternion, each with or without an appended noise block (augmentWithNoise, 1..3 rows; also applied a second time to the already augmented mixture), components 1..3, dof <= 11, "
         "covariances Q diag(s) Q^T PSD with distinct spectrum incl. rank-deficient and zero, alpha in [0.1,2], beta in [0,3], kappa in [0,3], "
-        "all five unscented_transform overloads, affine maps (rectangular, rank-deficient, zero), failing evaluations; "
+        "all five unscented_transform overloads, affine maps (rectangular, rank-deficient, zero) and quadratic maps x -> A x + b + g o (Gx) o (Gx) (compared with the model only), non-zero means on the noise rows, failing evaluations; "
         "non-trivial = components >= 2 or noise block or non-linear layout or singular covariance or failing evaluation; "
         "distinct by (layout class, lin, circ, aug, comps, overload, rank deficit, fail)")
-TRUSTED_BASE = ["Coq 8.16.1 kernel (coqc); no axioms (Print Assumptions: closed under the global context)",
+TRUSTED_BASE = ["Coq 8.16.1 kernel (coqc); linear-algebra theorems: no axioms (closed under the global context); C03_circular_row, C03_quaternion_block, C03_scalar_helpers_are_C19_C18: the four standard axioms of Coq's Reals",
                 "MathComp 1.15 matrix theory",
                 "extraction (ExtrOcamlBasic only) and ocaml/float_ops.ml, ocaml/drv_C03.ml (incl. its Jacobi eigen-iteration used as square-root / eigenvector oracle), ocaml/caseio.ml",
                 "ListOps list instance of MatOps (structural operations, unproved)",
@@ -28,7 +34,8 @@ TRUSTED_BASE = ["Coq 8.16.1 kernel (coqc); no axioms (Print Assumptions: closed 
 ASSUMPTIONS = ["square-root oracle: P symmetric PSD => A A^T = P (Eigen jacobiSvd U sqrt(S); checked on every case on both sides)",
                "sqrt oracle: 0 <= c => sqrt c * sqrt c = c (premise of the moment theorems)",
                "eigenvector oracle for the quaternion mean (Eigen EigenSolver): unit eigenvector of the largest eigenvalue (residual checked on the model side)",
-               "circular / quaternion clauses: spreads small enough that sigma points stay within a half turn and the weighted resultant is positive (generator enforces; theorems for these layouts are partial)"]
+               "per-instance oracle premises of the theorems: sqrt(c)^2 = c and sq P (sq P)^T = P for the covariances of the step (no universally quantified contract)",
+               "circular / quaternion clauses: spreads within a half turn and positive weighted resultant (premises of C03_circular_row; generator enforces); whole-layout moment theorems for these layouts remain partial"]
 
 COUNTS = {"quick": 320, "thorough": 9000}
 TWO_PI = 2 * math.pi
@@ -213,6 +220,11 @@ def gen_ut(rng, k, tier):
         b = np.zeros((p, 1)); b[:olin] = gen.matrix(rng, olin, 1, 2.0)
         kindA = "quat"
     p_, pc, _ = dims(*olay)
+    quad = 1 if (cls in ("linear", "euler_nowrap") and not fail and rng.random() < 0.3) else 0
+    if quad:
+        # non-affine member of the family: x -> A x + b + g o (G x) o (G x); no closed form is asserted for it,
+        # implementation and model are compared (the central sigma point is off the mean: wc_0 matters)
+        G = gen.matrix(rng, p_, d, 0.5); gq = gen.matrix(rng, p_, 1, 1.0)
     # ---- beliefs
     top = 10 ** rng.uniform(-2, 1)
     lim = 1.0
@@ -242,9 +254,10 @@ def gen_ut(rng, k, tier):
         rown = max(1.0, float(np.max(np.linalg.norm(J, axis=1))) if J.size else 1.0)
         s = min(1.0, lim * lim / (c * lam * rown * rown), 0.25 / lam)
         covs = [P * s for P in covs]; Qaug = Qaug * s; Qaug2 = Qaug2 * s
+    noise_means = gen.matrix(rng, q, comps, 2.0) if (q > 0 and rng.random() < 0.6) else None
     N = psd_distinct(rng, pc, pc, 10 ** rng.uniform(-2, 0))
     wmag = max(abs(1 - dc / c) + abs(1 - alpha * alpha + beta), 1 / (2 * c), 1.0)
-    meta = {"cls": cls, "lin": lin, "circ": circ, "quat": quat, "aug": q, "aug2": q2, "comps": comps, "overload": overload, "fail": fail,
+    meta = {"cls": cls, "lin": lin, "circ": circ, "quat": quat, "aug": q, "aug2": q2, "quad": quad, "nzm": int(noise_means is not None), "comps": comps, "overload": overload, "fail": fail,
             "alpha": "%.4g" % alpha, "beta": "%.4g" % beta, "kappa": "%.4g" % kappa, "kindA": kindA,
             "deficit": max(deficits), "wmag": "%.4g" % wmag, "c": "%.6g" % c}
     cs = caseio.Case(k, "ut", meta)
@@ -253,6 +266,10 @@ def gen_ut(rng, k, tier):
     cs.mat("params", np.array([[alpha, beta, kappa]]))
     cs.mat_shape("means", d0, comps, np.hstack(means)).mat_shape("covs", dc0, dc0 * comps, np.hstack(covs) if dc0 else None)
     cs.mat_shape("Qaug", q1, q1, Qaug).mat_shape("Qaug2", q2, q2, Qaug2).mat_shape("A", p_, d, A).mat_shape("b", p_, 1, b).mat_shape("N", pc, pc, N).mat_shape("J", pc, dc, J)
+    if quad:
+        cs.mat_shape("G", p_, d, G).mat_shape("g", p_, 1, gq)
+    if noise_means is not None:
+        cs.mat_shape("noise_means", q, comps, noise_means)
     return cs
 
 
@@ -275,7 +292,7 @@ def nontrivial(c):
     if c.kind == "weights":
         return None
     if int(m["comps"]) >= 2 or int(m["aug"]) > 0 or m["cls"] != "linear" or int(m["deficit"]) > 0 or int(m["fail"]):
-        return (m["cls"], m["lin"], m["circ"], m["aug"], m.get("aug2", "0"), m["comps"], m["overload"], m["deficit"], m["fail"])
+        return (m["cls"], m["lin"], m["circ"], m["aug"], m.get("aug2", "0"), m.get("quad", "0"), m.get("nzm", "0"), m["comps"], m["overload"], m["deficit"], m["fail"])
     return None
 
 
@@ -300,7 +317,8 @@ def augmented(c):
             Pa = np.zeros((dc0 + q, dc0 + q)); Pa[:dc0, :dc0] = P; Pa[dc0:dc0 + q1, dc0:dc0 + q1] = Qa
             if q2:
                 Pa[dc0 + q1:, dc0 + q1:] = Qb
-            ms.append(np.concatenate([means[:, i], np.zeros(q)])); Ps.append(Pa)
+            nm = c.get("noise_means")[:, i] if c.has("noise_means") else np.zeros(q)
+            ms.append(np.concatenate([means[:, i], nm])); Ps.append(Pa)
         else:
             ms.append(means[:, i].copy()); Ps.append(P)
     return ms, Ps
@@ -335,13 +353,14 @@ def compare(c, impl, model):
         return d + ["sp: shape impl=%s model=%s" % (impl.get("sp").shape, model.get("sp").shape)]
     # sigma points: the square-root factor is not unique, so they are compared through their moments
     mi, mm = sigma_moments(c, impl), sigma_moments(c, model)
+    qt = quat_cutoff_tol(c)
     for i, (a, b) in enumerate(zip(mi, mm)):
         mag = max(1.0, float(np.max(np.abs(a[2]))) if a[2].size else 1.0)
         if vec_diff(lay, a[0], b[0]) > 1e-12 * max(1.0, float(np.max(np.abs(a[0]))) if a[0].size else 1.0):
             d.append("sp: first column of component %d differs" % i)
-        if not caseio.close(a[1], b[1], tol_of(c, math.sqrt(mag)), 0):
+        if not caseio.close(a[1], b[1], tol_of(c, math.sqrt(mag)) + qt, 0):
             d.append("sp: weighted mean offset of component %d: %.3g" % (i, caseio.maxdiff(a[1], b[1])))
-        if not caseio.close(a[2], b[2], tol_of(c, mag), 0):
+        if not caseio.close(a[2], b[2], tol_of(c, mag) + qt, 0):
             d.append("sp: weighted covariance of component %d: %.3g (tol %.3g)" % (i, caseio.maxdiff(a[2], b[2]), tol_of(c, mag)))
     if impl.get("valid") == 1 and model.get("valid") == 1:
         d += caseio.compare_fields(impl, model, ["components"], 0, 0)
@@ -365,16 +384,57 @@ def compare(c, impl, model):
     return d
 
 
-def quat_cutoff_tol(c):
-    """quaternion blocks: rotation vectors shorter than 1e-4 are treated as zero by the code (C18's cut-off);
-    the induced error of a weighted second moment is at most (number of columns) * w_i * 1e-8 * |J|^2"""
+NEAR_BOUNDARY = set()      # ids of cases excluded from the quaternion comparisons (this run)
+_CUT = {}
+
+
+def quat_cutoff(c):
+    """Quaternion blocks: the code maps rotation vectors with |r| <= 1e-4 to the identity and reads
+    quaternions whose vector part is <= 1e-4 (|r| <= 2 asin(1e-4)) as a zero rotation (C18's cut-offs).
+    Returns (tol, near): tol = the exact bound on the induced error of a weighted second moment for THIS
+    case, from the sigma offsets that fall under a cut-off (usually none: tol = 0); near = True when an
+    offset lies within 2 % of a cut-off, where implementation, model and this bound may classify it
+    differently: such cases are excluded from the quaternion comparisons and counted."""
     if c.kind != "ut" or int(c.meta["quat"]) == 0:
-        return 0.0
+        return 0.0, False
+    if c.id in _CUT:
+        return _CUT[c.id]
     _, lay, _ = layouts(c)
-    dc = dims(*lay)[1]
+    lin, circ = lay[0], lay[1]
+    cc = float(c.meta["c"]); wi = 1.0 / (2.0 * cc)
     J = c.get("J")
     jn = max(1.0, float(np.linalg.norm(J, 2)) if J.size else 1.0)
-    return 4.0 * dc / (2.0 * float(c.meta["c"])) * 1e-8 * jn * jn + 2e-4 * jn
+    t1, t2 = 1e-4, 2.0 * math.asin(1e-4)
+    tol, near, rmax = 0.0, False, 0.0
+    for P in augmented(c)[1]:
+        lam, V = np.linalg.eigh((P + P.T) / 2)
+        cols = V * np.sqrt(cc * np.maximum(lam, 0.0))
+        for k in range(cols.shape[1]):
+            dk = float(np.linalg.norm(cols[:, k]))
+            for j in range(circ):
+                rn = float(np.linalg.norm(cols[lin + 3 * j: lin + 3 * j + 3, k]))
+                for t in (t1, t2):
+                    if abs(rn - t) <= 0.02 * t:
+                        near = True
+                if 0.0 < rn <= t2:
+                    tol += 2.0 * wi * (2.0 * rn * dk + rn * rn) * jn * jn
+                    rmax = max(rmax, rn)
+    _CUT[c.id] = (tol + 2.0 * rmax * jn * 0.0, near)
+    _CUT[c.id + ":rmax"] = rmax
+    return _CUT[c.id]
+
+
+def quat_cutoff_tol(c):
+    tol, near = quat_cutoff(c)
+    if near:
+        NEAR_BOUNDARY.add(c.id)
+        return math.inf        # comparisons that depend on the classification are not made
+    return tol
+
+
+def quat_rmax(c):
+    quat_cutoff(c)
+    return _CUT.get(c.id + ":rmax", 0.0)
 
 
 def oracle(c, impl, model):
@@ -424,10 +484,10 @@ def oracle(c, impl, model):
             v.append((sig + ":sigma-points-do-not-reproduce-covariance", "component %d: max diff %.3g (tol %.3g)" % (i, caseio.maxdiff(dcov, P), tol_of(c, mag) + qtol)))
         # the factor the implementation used: symmetric set and A A^T = P (contract of the square-root oracle)
         Dp, Dn = D[:, 1:dc + 1], D[:, dc + 1:]
-        if not caseio.close(Dp, -Dn, 1e-9 * max(1.0, float(np.max(np.abs(Dp), initial=0.0))) + (1e-4 if lay[2] else 0), 0):
+        if not caseio.close(Dp, -Dn, 1e-9 * max(1.0, float(np.max(np.abs(Dp), initial=0.0))) + 2.0 * quat_rmax(c) + (0 if qtol < math.inf else math.inf), 0):
             v.append((sig + ":sigma-points-not-symmetric", "component %d: positive and negative branches differ in magnitude by %.3g" % (i, caseio.maxdiff(Dp, -Dn))))
         A = Dp / math.sqrt(cc)
-        if not caseio.close(A @ A.T, P, 1e-9 * mag + qtol, 0):
+        if not caseio.close(A @ A.T, P, 1e-9 * mag + 2.0 * qtol, 0):
             v.append((sig + ":sqrt-contract", "component %d: |A A^T - P| = %.3g" % (i, caseio.maxdiff(A @ A.T, P))))
     # ---- failure is reported as failure
     if fail:
@@ -448,7 +508,38 @@ def oracle(c, impl, model):
         return v
     if not caseio.close(impl.get("weights").reshape(-1), np.full(comps, 1.0 / comps), 1e-15, 0):
         v.append((sig + ":output-weights", "not uniform"))
-    # ---- affine closed forms
+    # ---- affine closed forms (the quadratic members of the family are compared with the model only)
+    if int(c.meta.get("quad", 0)):
+        # independent evaluation of the transform definition on the implementation's own sigma points
+        # (already checked above), with the weights of the formula: catches a wrong weight vector in the
+        # covariance sums, which no affine map can reveal (its central offset is zero)
+        A, b, G, g, N = c.get("A"), c.get("b").reshape(-1), c.get("G"), c.get("g").reshape(-1), c.get("N")
+        wi_ = 1.0 / (2.0 * cc)
+        fwm = np.concatenate([[1.0 - n / cc], np.full(2 * n, wi_)])
+        fwc = fwm.copy(); fwc[0] += 1.0 - alpha * alpha + beta
+        base = 2 * dc + 1
+        tag = ":overload=%d" % overload
+        for i in range(comps):
+            X = sp[:, base * i: base * (i + 1)]
+            U = G @ X
+            Y = A @ X + b[:, None] + g[:, None] * U * U
+            ybar = Y @ fwm
+            Dy = Y - ybar[:, None]
+            Dx = (X - ms[i][:, None])[:dx]
+            ecov = (Dy * fwc) @ Dy.T + (N if overload in (2, 4) else 0)
+            ecross = (Dx * fwc) @ Dy.T
+            mag = max(1.0, float(np.max(np.abs(Y))) ** 2)
+            t = tol_of(c, mag)
+            im, ic, ix = impl.get("mean%d" % i), impl.get("cov%d" % i), impl.get("cross%d" % i)
+            if im is None or ic is None or ix is None:
+                v.append((sig + ":missing-output" + tag, "component %d" % i)); continue
+            if not caseio.close(im.reshape(-1), ybar, t, 0):
+                v.append((sig + ":quadratic-map:mean-not-weighted-mean" + tag, "component %d: off by %.3g (tol %.3g)" % (i, caseio.maxdiff(im.reshape(-1), ybar), t)))
+            if not caseio.close(ic, ecov, t, 0):
+                v.append((sig + ":quadratic-map:covariance-not-D-wc-Dt" + tag, "component %d: max diff %.3g (tol %.3g)" % (i, caseio.maxdiff(ic, ecov), t)))
+            if not caseio.close(ix, ecross, t, 0):
+                v.append((sig + ":quadratic-map:cross-covariance-not-Dx-wc-Dt" + tag, "component %d: max diff %.3g (tol %.3g)" % (i, caseio.maxdiff(ix, ecross), t)))
+        return v + model_contracts(model)
     A, b, J, N = c.get("A"), c.get("b").reshape(-1), c.get("J"), c.get("N")
     additive = overload in (2, 4)
     for i in range(comps):
@@ -472,7 +563,12 @@ def oracle(c, impl, model):
             v.append((sig + ":covariance-not-APAt" + ("+Q" if additive else "") + tag, "component %d: max diff %.3g (tol %.3g)" % (i, caseio.maxdiff(ic, ecov), t)))
         if not caseio.close(ix, ecross, t, 0):
             v.append((sig + ":cross-covariance-not-PAt" + tag, "component %d: max diff %.3g (tol %.3g)" % (i, caseio.maxdiff(ix, ecross), t)))
-    # ---- contracts of the model-side oracles
+    return v + model_contracts(model)
+
+
+def model_contracts(model):
+    """contracts of the model-side oracles"""
+    v = []
     if model is not None:
         if model.get("sqrt_residual", 0.0) > 1e-10:
             v.append(("C03:model-sqrt-oracle-contract", "residual %.3g" % model.get("sqrt_residual")))
@@ -483,12 +579,13 @@ def oracle(c, impl, model):
 
 def histogram(cases):
     h = {}
-    for key in ("cls", "overload", "aug", "aug2", "comps", "fail", "deficit", "kindA"):
+    for key in ("cls", "overload", "aug", "aug2", "quad", "nzm", "comps", "fail", "deficit", "kindA"):
         hk = {}
         for c in cases:
             if key in c.meta:
                 hk[str(c.meta[key])] = hk.get(str(c.meta[key]), 0) + 1
         h[key] = hk
+    h["near_boundary_skipped"] = len(NEAR_BOUNDARY)
     return h
 
 
